@@ -346,8 +346,12 @@ func (h *harness) stagePrecompiles() {
 				tokArgs = append(tokArgs, in.Name)
 			}
 		}
-		if len(uints) >= 2 && len(uints) <= 3 {
+		if len(uints) >= 1 && len(uints) <= 3 {
 			grid := []*big.Int{big.NewInt(0), big.NewInt(1), two255, two256m1}
+			if len(uints) == 1 {
+				grid = []*big.Int{big.NewInt(0), big.NewInt(1), big.NewInt(2), big.NewInt(3), new(big.Int).Lsh(big.NewInt(1), 63), new(big.Int).Lsh(big.NewInt(1), 64),
+					new(big.Int).Lsh(big.NewInt(1), 128), new(big.Int).Lsh(big.NewInt(1), 200), new(big.Int).Sub(two255, big.NewInt(1)), two255, two256m1}
+			}
 			total := 1
 			for range uints {
 				total *= len(grid)
